@@ -226,7 +226,16 @@ finish_fields:
     reb_tree_delete(r);
     if (r->gravity==REB_GRAVITY_TREE || r->collision==REB_COLLISION_TREE || r->collision==REB_COLLISION_LINETREE){
         for (unsigned int l=0;l<r->N_allocated;l++){
-            reb_tree_add_particle_to_tree(r, l);
+            const double y = r->particles[l].y;
+            if (isnan(y)){
+                // Particle was flagged for removal (see reb_simulation_remove_particle). It has no position in the tree.
+                // Insert it at a valid position so that the next tree update finds and removes it.
+                r->particles[l].y = 0.;
+                reb_tree_add_particle_to_tree(r, l);
+                r->particles[l].y = y;
+            }else{
+                reb_tree_add_particle_to_tree(r, l);
+            }
         }
     }
     // Commented out on Nov 26 2024. Not sure why this was added. Might be for an older SA version.
